@@ -9,7 +9,8 @@ LEVEL = "exploration"
 RULE = ("Hypothesis generates a world (volume layout x $topdir/.Trash and .Trash-$uid states x "
         "pre-existing trash content) with 1-3 entries of any kind, a spelling per argument "
         "(abs, relative, ./x, sub/../x, link/../x, trailing slashes, //, via symlinked parent, "
-        "dot entries, mount point, ancestor of the trash dir, nonexistent) and an option set; the "
+        "dot entries, mount point, ancestor of the trash dir, nonexistent, relative from a working "
+        "directory deeper than PATH_MAX) and an option set; the "
         "real trash-put runs in it; oracle = every named entry is in state T (gone + exactly one "
         "new info/payload pair deep-equal to the pre-snapshot, info decoding to its location) or "
         "U (deep-equal at its place), no stray info / orphan payload, nothing else changed. "
@@ -81,10 +82,19 @@ def strategy_(draw, tier):
         nodes += gen.topdir_nodes(v, uid, ts, as_, draw(st.booleans()))
     n = draw(st.integers(1, 3))
     cwd = draw(st.sampled_from(workdirs + [home, "/"]))
+    # "deepcwd": the argument lives deeper than PATH_MAX and is named relative to the working
+    # directory (the only way to name it at all)
+    deepcwd = draw(st.integers(0, 24)) == 0
+    if deepcwd:
+        n = 1
     files, metas = [], []
     used = set()
     for i in range(n):
         d = draw(st.sampled_from(workdirs))
+        if deepcwd:
+            d = d + "".join("/%02d" % j + "d" * 240 for j in range(17))
+            nodes.append({"p": d, "t": "d"})
+            cwd = d
         name = draw(gen.names(raw=False))
         kind = draw(st.sampled_from(gen.KINDS))
         e = d + "/" + name
@@ -93,7 +103,7 @@ def strategy_(draw, tier):
         used.add(e)
         if kind == "link_link":
             nodes.append({"p": d + "/mid" + str(i), "t": "l", "to": "/data/tfile"})
-            lt = [d + "/mid" + str(i)]
+            lt = ["mid" + str(i)] if deepcwd else [d + "/mid" + str(i)]
         elif kind == "link_file":
             lt = [t for t in link_targets if "tfile" in t and "missing" not in t or "vfile" in t]
         elif kind == "link_dir":
@@ -104,6 +114,8 @@ def strategy_(draw, tier):
             lt = link_targets
         nodes += draw(gen.entry_nodes(e, kind, lt, big=True))
         sp = draw(st.sampled_from(SPELLINGS))
+        if deepcwd:
+            sp = draw(st.sampled_from(["rel", "dotrel", "slash1"]))
         is_dir = kind in ("dir", "tree")
         if sp in ("e_dot", "e_dotdot", "e_dot_slash") and not (is_dir or kind == "link_dir"):
             sp = "abs"
@@ -115,7 +127,7 @@ def strategy_(draw, tier):
         elif sp == "dotrel":
             arg = "./" + relpath(e, cwd)
         elif sp.startswith("slash"):
-            arg = e + "/" * int(sp[-1])
+            arg = (name if deepcwd else e) + "/" * int(sp[-1])
         elif sp == "dslash":
             arg = d + "//" + name
         elif sp == "sub_dotdot":
@@ -151,7 +163,8 @@ def strategy_(draw, tier):
         elif sp == "nonexistent":
             arg = d + "/missing-" + str(i)
         files.append(arg)
-        metas.append({"kind": kind, "spelling": sp, "name_class": gen.name_class(name)})
+        metas.append({"kind": kind, "spelling": sp + ("@deepcwd" if deepcwd else ""),
+                      "name_class": gen.name_class(name)})
     for j, m in enumerate(metas):
         # spellings that name an ancestor of other entries are only used alone (the T/U
         # reading of C01 is per argument; aliasing arguments are C16's business)
